@@ -179,7 +179,7 @@ func runC11H(s *kernel.Sim) {
 			}
 			acted := c11hRetryAfter.MatchString(text)
 			s.Event("response", t.id, t.seq, fmt.Sprintf("retry_acted=%v pinned=%d", acted, t.pinned))
-			if s.Now()-t.reqT >= c11Retention {
+			if s.Now()-t.reqT > c11Retention {
 				continue // beyond the retention period the pin may be gone
 			}
 			s.Rule("R1")
